@@ -263,13 +263,17 @@ def load_sample(name):
         return h.read()
 
 
-def gen_file(rng, codec):
-    """-> (bytes, kind, layout or None); layout only for the well-formed synthesised kinds"""
-    kind = rng.choice(["plain"] * 10 + ["sample"] * 3 + ["truncated", "cut-at-page", "junk-behind", "junk-middle", "lacing-too-big",
+FILE_KINDS = ["plain"] * 10 + ["sample"] * 3 + ["truncated", "cut-at-page", "junk-behind", "junk-middle", "lacing-too-big",
                                                       "seq-gap", "never-completes", "two-comments", "no-comment", "empty-page",
                                                       "bad-version", "bad-capture", "bad-crc", "same-codec-twice", "same-codec-twice", "chained",
                                                       "id-not-first", "short-id", "short-id", "tiny", "seq-off", "seq-max", "comment-first-flag", "foreign-junk-tail",
-                                                      "flags-hi"])
+                                                      "flags-hi"]
+
+
+def gen_file(rng, codec, kind=None, other_first=None):
+    """-> (bytes, kind, layout or None); layout only for the well-formed synthesised kinds.  `kind` / `other_first`
+    force what is otherwise drawn (the stratified pass of `run`)"""
+    kind = kind or rng.choice(FILE_KINDS)
     data, lay = gen_plain(rng, codec)
     pages = lay["pages"]
     if kind == "plain":
@@ -361,7 +365,7 @@ def gen_file(rng, codec):
         st2 = gen_codec_stream(rng, codec, s2)
         if kind == "chained":
             order = rng.choice([pages + st2["pages"], st2["pages"] + pages])
-        elif rng.random() < 0.4:
+        elif other_first or (other_first is None and rng.random() < 0.4):
             # A-identification, B-identification, all of B (its comment pages first), then the rest of A
             mine = [p for p in pages if p["serial"] == lay["serial"]]
             order = [mine[0], st2["pages"][0]] + st2["pages"][1:] + mine[1:] + [p for p in pages if p["serial"] != lay["serial"]]
@@ -590,9 +594,22 @@ def run(ctx, only=None):
     for codec in (only or list(CODECS)):
         c = CODECS[codec]
         cls, tcls = classes(codec)
-        for i in range(n):
-            data, kind, lay = gen_file(rng, codec)
-            op = rng.choice(["save", "save", "save", "delete"])
+        # a stratified pass first: every kind of the generator once per operation (two multiplexed streams of the codec in
+        # both orders of their comment pages), then the random draws
+        forced = []
+        for kd in sorted(set(FILE_KINDS)):
+            for fop in (("save", "delete") if kd in ("plain", "same-codec-twice", "chained", "junk-behind", "two-comments") else ("save",)):
+                if kd == "same-codec-twice":
+                    forced += [(kd, True, fop), (kd, False, fop)]
+                else:
+                    forced.append((kd, None, fop))
+        for i in range(len(forced) + n):
+            if i < len(forced):
+                data, kind, lay = gen_file(rng, codec, kind=forced[i][0], other_first=forced[i][1])
+                op = forced[i][2]
+            else:
+                data, kind, lay = gen_file(rng, codec)
+                op = rng.choice(["save", "save", "save", "delete"])
             desc = dict(fmt=codec, kind=kind, op=op, data=hx(data) if len(data) < 1500 else "len=%d" % len(data))
             # the tag object: loaded from the file itself when that works, else from a sample of the codec
             kl, t = timed(lambda: cls(io.BytesIO(data)), 20)
